@@ -73,6 +73,12 @@ impl WriteGuard {
         ensures *final(w) == (World { registry: old(w).registry.remove(key.id()), reg_evictions: old(w).reg_evictions + evicts(old(w), key.id()), ..*old(w) }),
                 r is Some <==> old(w).registry.dom().contains(key.id()), r is Some ==> r->0.val() == old(w).registry[key.id()]
     { unimplemented!() }
+    #[verifier::external_body]
+    pub fn remove_entry(&mut self, key: &TypeIdV, Tracked(w): Tracked<&mut World>) -> (r: Option<(TypeIdV, AnyBoxObj)>)
+        requires old(w).locked,                                                                                               // @ob lock.registry-written-under-lock C08
+        ensures *final(w) == (World { registry: old(w).registry.remove(key.id()), reg_evictions: old(w).reg_evictions + evicts(old(w), key.id()), ..*old(w) }),
+                r is Some <==> old(w).registry.dom().contains(key.id()), r is Some ==> ({ let p = r.unwrap(); p.1.val() == old(w).registry[key.id()] && p.0.id() == key.id() })
+    { unimplemented!() }
 }
 pub enum ActorError { ServiceStillRunning, AlreadyStopped, Other }
 
